@@ -69,6 +69,12 @@ def run(c):
             c.report("crash:conflict-in-protected-window:%s:before-%s" % (o["mode"], o["model_step"]),
                      "%s: conflicting signature although the WAL discipline protects this crash point: %s" %
                      (where, o["conflicts"][0]), dict(outcome=o, model=m))
+    # restarts BETWEEN handler calls inside adversarial network runs (several correct nodes, several restarts per run,
+    # rounds > 1, a Byzantine validator): the trace specification's Restart action is the replay of the inputs
+    # logged since the last #ENDHEIGHT — the recovered node must be exactly where its never-stopped twin is and
+    # must re-publish only what it had signed before
+    import checks.C01 as c01
+    c01.net_runs(c, ["4w-restart", "5w-restart"] + (["4eq-restart"] if th else []), 30 if th else 3, ("net:agreement", "net:panic"))
     c.extra["crash_points_compared_with_model"] = compared
     c.extra["model_crash_points"] = len(pts)
     c.traces += compared
